@@ -78,7 +78,10 @@ JudgeC05(e, cfg, T) ==
 \* ---- C11 (as far as a single call shows it): Marshal / Unmarshal left the source value alone ----
 JudgeC11(e, cfg, T) ==
   IF Crashed(e) \/ e.out.panic \/ e.out.merr # "" THEN "ok"
-  ELSE IF Eq(T, e.out.srcAfter, e.v) THEN "ok" ELSE "source-modified"
+  ELSE IF ~Eq(T, e.out.srcAfter, e.v) THEN "source-modified"
+  ELSE IF "aliasIn" \in DOMAIN e.out /\ e.out.aliasIn THEN "decoded-value-shares-memory-with-input"
+  ELSE IF "aliasOut" \in DOMAIN e.out /\ e.out.aliasOut THEN "returned-bytes-share-memory-with-the-value"
+  ELSE "ok"
 
 \* ---- C09: explicit presence ----
 \* zero-valued plain fields leave no frame, at any struct nesting reachable through struct / pointer fields
